@@ -39,7 +39,18 @@ class RulesFitsStream(Stream):
             'matches, or an element that raises / is not a rule')
 
     def corpus(self):
-        return [
+        def one(rule, what):
+            return {'checker': 'CRules', 'policy': pol([['r', rule]], field='subjects'), 'field': 'subjects',
+                    'what': what, 'rxtable': [], 'inq': None}
+        nested = [
+            # an empty composition is never satisfied, also when it sits inside another composition
+            one(['And', [['And', []], ['Any']]], 1), one(['And', [['Any'], ['And', []]]], 1),
+            one(['Or', [['Or', []], ['Any']]], 1), one(['Or', [['Or', []]]], 1), one(['And', [['Or', []], ['Any']]], 1),
+            one(['Or', [['And', []], ['Neither']]], 1), one(['Not', ['And', [['And', []], ['Any']]]], 1),
+            {'checker': 'CRules', 'policy': pol([['d', [['name', ['And', [['And', []], ['Eq', 'Max']]]]]]], field='subjects'),
+             'field': 'subjects', 'what': {'D': [['name', 'Max']]}, 'rxtable': [], 'inq': None},
+        ]
+        return nested + [
             # a defaultdict lacking the attribute: Falsy would accept the default 0
             {'checker': 'CRules', 'policy': pol([['d', [['a', ['Falsy']]]]], field='subjects'), 'field': 'subjects',
              'what': {'D': [['b', 1]]}, 'dict_default': [0], 'rxtable': [], 'inq': None},
@@ -157,7 +168,7 @@ ASSUME = ['rules that raise a non-Exception BaseException propagate (stated in t
 
 def main(argv):
     return run_check('C04', [RulesFitsStream()], argv, trusted_base=TRUSTED, assumptions=ASSUME,
-                     translated=('checker', 'pin_rules'))
+                     translated=('checker', 'policy', 'pin_rules'))
 
 
 if __name__ == '__main__':
